@@ -262,12 +262,16 @@ def oracle_syspath(ctx, spec, base, proj, real, env_sys_path, buildout):
     how = 'materialise spec in a scratch dir (harness/props/c20.py:replay), Project(**kw), ' \
           'Script(path=script, project=p)._inference_state.get_sys_path()'
     nontriv = False
+
+    def fail(what, expected=None, observed=None):
+        ctx.fail('oracle-syspath', what, case, expected=unmat_deep(expected, base),
+                 observed=unmat_deep(observed, base), how=how)
+
     if not isinstance(real, list) or any(not isinstance(x, str) for x in real):
-        ctx.fail('oracle-syspath', 'sys path is not a list of str', case, observed=repr(real), how=how)
+        fail('sys path is not a list of str', observed=repr(real))
         return
     if len(set(real)) != len(real):
-        ctx.fail('oracle-syspath', 'effective sys path contains duplicates', case,
-                 observed={'clause': 'duplicates', 'sys_path': real}, how=how)
+        fail('effective sys path contains duplicates', observed={'clause': 'duplicates', 'sys_path': real})
     doc = documented_sys_path(spec, base, proj, env_sys_path)
     if doc is None:
         ctx.count('oracle-syspath', json.dumps(spec, sort_keys=True), nontrivial=False, bucket='dotdot')
@@ -275,13 +279,11 @@ def oracle_syspath(ctx, spec, base, proj, real, env_sys_path, buildout):
     full, head, basep, added, anc = doc
     smart = spec['kw'].get('smart_sys_path', True)
     if smart and (not real or real[0] != str(proj.path)):
-        ctx.fail('oracle-syspath', 'project directory is not first although smart_sys_path is on', case,
-                 expected=str(proj.path), observed={'clause': 'head', 'sys_path': real}, how=how)
+        fail('project directory is not first although smart_sys_path is on', expected=str(proj.path), observed={'clause': 'head', 'sys_path': real})
     keep = [p for p in real if p in set(basep) and p not in head]
     want = first_occurrences([b for b in basep if b not in head])
     if keep != want:
-        ctx.fail('oracle-syspath', 'base sys_path entries are not kept in their order', case,
-                 expected=want, observed={'clause': 'base-order', 'sys_path': real}, how=how)
+        fail('base sys_path entries are not kept in their order', expected=want, observed={'clause': 'base-order', 'sys_path': real})
     tail = [p for p in real if p not in set(basep) and p not in head and p not in buildout]
     want_tail = [p for p in first_occurrences(added + anc) if p not in set(basep) and p not in head
                  and p not in buildout]
@@ -289,9 +291,14 @@ def oracle_syspath(ctx, spec, base, proj, real, env_sys_path, buildout):
         missing = [p for p in want_tail if p not in tail]
         extra = [p for p in tail if p not in want_tail]
         clause = 'ancestors-missing' if missing and not extra and all(m in anc for m in missing) else 'suffix'
-        ctx.fail('oracle-syspath', 'added_sys_path / in-project ancestors are not appended as documented', case,
-                 expected=want_tail, observed={'clause': clause, 'missing': missing, 'extra': extra,
-                                              'sys_path': real}, how=how)
+        fail('added_sys_path / in-project ancestors are not appended as documented', expected=want_tail, observed={'clause': clause, 'missing': missing, 'extra': extra,
+                                              'sys_path': real})
+    elif keep == want and (not smart or real[:1] == head):
+        # every clause holds separately: the blocks must also come in the documented order
+        # (project, base entries, then the appended entries; buildout paths are not judged)
+        rest = [p for p in real if p not in buildout or p in head or p in basep or p in want_tail]
+        if rest != head + want + want_tail:
+            fail('added_sys_path / ancestors are not appended after the base entries', expected=head + want + want_tail, observed={'clause': 'block-order', 'sys_path': real})
     nontriv = len(real) >= 3
     ctx.count('oracle-syspath', json.dumps(spec, sort_keys=True), nontrivial=nontriv,
               bucket='%s/anc=%d' % (kind_of(spec['kw']['path']), len(anc)))
